@@ -32,8 +32,10 @@ def handle : List String → String
       encCell s.1 ++ ":" ++ (if s.2.isEmpty then "!" else joinWith "/" ((rowIter .none s.2).2.map fun r =>
         if r.isEmpty then "~" else joinWith "." (r.map encCell))))
   | "open" :: suffix :: regs =>
-    -- regs: `suffix=class` in registration order
-    let r := regs.foldl (fun acc kv => match kv.splitOn "=" with | [s, c] => register acc [s] c | _ => acc) ([] : Registry)
+    -- regs: `suffix,suffix,…=class` in registration order (one registration may name several suffixes)
+    let hist : List (List String × String) := regs.filterMap fun kv =>
+      match kv.splitOn "=" with | [ss, c] => some (ss.splitOn ",", c) | _ => none
+    let r := hist.foldl (fun acc p => register acc p.1 p.2) ([] : Registry)
     match openWorkbook r suffix with
     | .opened c => c
     | .notImplemented => "NotImplementedError"
